@@ -394,6 +394,63 @@ def ob_generate_mprocess2(sys, pidx):
     return FnOb(state_inputs(sys), run, assume=assume, eager_ite=True, max_paths=60, expect_nonlinear=True)
 
 
+def ob_generate_mprocess_spectral(sys, mode, vname):
+    """generate_mprocess(mode 0 / 1) from a 2-outcome POVM {E, I-E} with E = V diag(w) V† (0 < w < 1):
+    mode 0: K = sqrt(E); mode 1: HS = sum_i w_i P_i (x) conj(P_i).  Claims: induced POVM == the POVM, HS == Kraus reference"""
+    from symq import stubs
+    d = DIMS[sys]
+    V = dict(refs.unitary_library(d))[vname]
+    B = basis_of(sys)
+
+    def run(I):
+        import quara.objects.povm as PV
+        c = qenv.csys(sys)
+        w = [I[f"w{i}"] for i in range(d)]
+        w2 = [1.0 - x for x in reversed(w)]
+        V2 = V[:, ::-1].copy()
+        E = stubs.spectral(w, V, "E0")
+        F = stubs.spectral(w2, V2, "E1")           # I - E in the same eigenbasis, eigenvalues ascending
+        vecs = [refs.ref_vec(E, B).real, refs.ref_vec(F, B).real]
+        pv = mk_povm(c, vecs)
+        if mode == 0:
+            # sqrtm stub: principal square root through the registered decomposition
+            def sqrtm_stub(M):
+                if nd.is_concrete(M):
+                    import scipy.linalg
+                    return scipy.linalg.sqrtm(nd.to_concrete(M))
+                ww, VV = stubs.eigh(M)
+                return stubs.spectral([Sym.of(x).sqrt() for x in ww], VV, "sqrt")
+            old = PV.sqrtm
+            PV.sqrtm = sqrtm_stub
+            try:
+                mp = pv.generate_mprocess(0)
+            finally:
+                PV.sqrtm = old
+            kraus = [[stubs.spectral([Sym.of(x).sqrt() for x in w], V, "k0")], [stubs.spectral([Sym.of(x).sqrt() for x in w2], V2, "k1")]]
+        else:
+            mp = pv.generate_mprocess(1)
+            kraus = []
+            for ww, VV in ((w, V), (w2, V2)):
+                ks = []
+                for i in range(d):
+                    P = np.outer(VV[:, i], VV[:, i].conj())
+                    ks.append(P.astype(object) * Sym.of(ww[i]).sqrt())
+                kraus.append(ks)
+        out = []
+        back = mp.to_povm()
+        for k in range(2):
+            out.append(Eq(f"to_povm()[{k}] == povm[{k}]", back.vecs[k], vecs[k], 1e-7))
+            out.append(Eq(f"HS[{k}] == sum_K Tr(B_a† K B_b K†)", mp.hss[k], refs.ref_hs_from_kraus(kraus[k], B).real, 1e-7))
+        return out
+
+    def assume(I):
+        w = [I[f"w{i}"] for i in range(d)]
+        return stubs.gaps(w, 1e-3)
+    return FnOb([(f"w{i}", "real", 0.01, 0.99) for i in range(d)], run, assume=assume, max_paths=60, expect_nonlinear=True,
+                stubs=["np.linalg.eigh: spectral parametrisation, frame " + vname] + (["scipy.linalg.sqrtm: V diag(sqrt w) V† of the registered decomposition"] if mode == 0 else []),
+                outside=["degenerate spectra", "frames outside the library"])
+
+
 CHAINS_Q1 = [
     (["state", "gate", "povm"], [None, "ampdamp", 3]),
     (["state", "gate", "gate", "povm"], [None, "S", "ampdamp", 4]),
@@ -425,6 +482,8 @@ def obligations(tier):
         n_meas = sum(1 for k in kinds if k == "mprocess") + (1 if kinds[-1] == "povm" else 0)
         out += specs("C06.bracket", [{"sys": "Q1", "kinds": kinds, "names": names, "one_param": n_meas >= 2}], ob_bracket, 3 * len(kinds))
     out += specs("C06.generate_mprocess.mode2", [{"sys": "Q1", "pidx": k} for k in (1, 3)], ob_generate_mprocess2, 2)
+    out += specs("C06.generate_mprocess.spectral", [{"sys": "Q1", "mode": md, "vname": v} for md in (0, 1) for v in tiers(tier, ["cplx"], ["rot", "cplx"])] +
+                 tiers(tier, [], [{"sys": "T1", "mode": md, "vname": "perm.rot"} for md in (0, 1)]), ob_generate_mprocess_spectral, 3)
     return out
 
 
